@@ -70,17 +70,17 @@ theorem seg_singleton {code : List Tok} {k : Nat} {t : Tok} (h : code[k]? = some
 
 /-- **the own tokens of a sub-forest**: the lines of the tokens of `b.own` are the lines of the
 tokens of the segment that lie in no function of `b` -/
-theorem own_lines {code : List Tok} : ∀ (b : Prog Tok) (k : Nat), b.wf = true →
+theorem own_lines_core {code : List Tok} : ∀ (b : Prog Tok) (k : Nat), b.wfCore = true →
     Seg code k b.flat → ∀ l,
     (l ∈ b.own.map (·.line) ↔ OwnL code (fnsOf b k) k (k + b.size) l)
   | .nil, k, _, _, l => by
     simp only [Prog.own, List.map_nil, List.not_mem_nil, false_iff]
     exact OwnL.empty (by simp [Prog.size])
   | .leaf t rest, k, h, hseg, l => by
-    simp only [Prog.wf, Bool.and_eq_true] at h
+    simp only [Prog.wfCore, Bool.and_eq_true] at h
     rw [Prog.flat, Seg.cons_iff] at hseg
-    have hb := fnsOf_bounds rest (k + 1) h.2
-    have ih := own_lines rest (k + 1) h.2 hseg.2 l
+    have hb := fnsOf_bounds_core rest (k + 1) h.2
+    have ih := own_lines_core rest (k + 1) h.2 hseg.2 l
     simp only [Prog.own, Prog.size, fnsOf, List.map_cons, List.mem_cons]
     rw [OwnL.split (mid := k + 1) (by omega) (by omega), ih,
       show k + (rest.size + 1) = k + 1 + rest.size by omega]
@@ -90,15 +90,15 @@ theorem own_lines {code : List Tok} : ∀ (b : Prog Tok) (k : Nat), b.wf = true 
     have := OwnL.seg (seg_singleton hseg.1) l
     simpa using this.symm
   | .group op cl items rest, k, h, hseg, l => by
-    simp only [Prog.wf, Bool.and_eq_true] at h
+    simp only [Prog.wfCore, Bool.and_eq_true] at h
     obtain ⟨⟨⟨hop, hcl⟩, hwi⟩, hwr⟩ := h
     rw [Prog.flat, Seg.cons_iff, Seg.append_iff, Seg.cons_iff, Prog.size_eq] at hseg
     obtain ⟨ho, hsi, hc, hsr⟩ := hseg
     rw [show k + 1 + items.size + 1 = k + items.size + 2 by omega] at hsr
-    have hbi := fnsOf_bounds items (k + 1) hwi
-    have hbr := fnsOf_bounds rest (k + items.size + 2) hwr
-    have ihi := own_lines items (k + 1) hwi hsi l
-    have ihr := own_lines rest (k + items.size + 2) hwr hsr l
+    have hbi := fnsOf_bounds_core items (k + 1) hwi
+    have hbr := fnsOf_bounds_core rest (k + items.size + 2) hwr
+    have ihi := own_lines_core items (k + 1) hwi hsi l
+    have ihr := own_lines_core rest (k + items.size + 2) hwr hsr l
     simp only [Prog.own, Prog.size, fnsOf, List.map_cons, List.map_append, List.mem_cons,
       List.mem_append]
     rw [OwnL.split (mid := k + 1) (by omega) (by omega),
@@ -128,16 +128,16 @@ theorem own_lines {code : List Tok} : ∀ (b : Prog Tok) (k : Nat), b.wf = true 
         · have := hbi g hg; exact .inr (.inr (by omega))
         · exact .inl hg)).symm
   | .fn hdr n gap op cl body rest, k, h, hseg, l => by
-    simp only [Prog.wf, Bool.and_eq_true, decide_eq_true_eq] at h
-    obtain ⟨⟨⟨⟨⟨⟨⟨⟨⟨⟨hsl, hnf⟩, hwh⟩, hk⟩, hnm⟩, hgap⟩, hop⟩, hcl⟩, hwb⟩, hadj⟩, hwr⟩ := h
+    simp only [Prog.wfCore, Bool.and_eq_true, decide_eq_true_eq] at h
+    obtain ⟨⟨⟨⟨⟨⟨⟨⟨⟨hsl, hnf⟩, hwh⟩, hk⟩, hnm⟩, hgap⟩, hop⟩, hcl⟩, hwb⟩, hwr⟩ := h
     rw [Prog.flat, Seg.append_iff, Seg.append_iff, Seg.cons_iff, Seg.append_iff, Seg.cons_iff,
       Prog.size_eq, Prog.size_eq] at hseg
     obtain ⟨_, _, _, _, _, hsr⟩ := hseg
     rw [show k + hdr.size + gap.length + 1 + body.size + 1
       = k + hdr.size + gap.length + body.size + 2 by omega] at hsr
-    have hbb := fnsOf_bounds body (k + hdr.size + gap.length + 1) hwb
-    have hbr := fnsOf_bounds rest (k + hdr.size + gap.length + body.size + 2) hwr
-    have ihr := own_lines rest _ hwr hsr l
+    have hbb := fnsOf_bounds_core body (k + hdr.size + gap.length + 1) hwb
+    have hbr := fnsOf_bounds_core rest (k + hdr.size + gap.length + body.size + 2) hwr
+    have ihr := own_lines_core rest _ hwr hsr l
     simp only [Prog.own, Prog.size, fnsOf]
     rw [OwnL.split (mid := k + hdr.size + gap.length + body.size + 2) (by omega) (by omega), ihr,
       show k + (hdr.size + gap.length + body.size + rest.size + 2)
@@ -183,27 +183,27 @@ theorem expectedWith_node {code : List Tok} {f : Fn} {first last : Tok} {len : N
 
 /-- **the expected report of a sub-forest inside a file with functions `G`** is the tree
 report -/
-theorem expected_prog_ctx {code : List Tok} : ∀ (p : Prog Tok) (i : Nat), p.wf = true →
+theorem expected_prog_ctx_core {code : List Tok} : ∀ (p : Prog Tok) (i : Nat), p.wfCore = true →
     ∀ (G : List Fn) (par : Option Fn), Nested G → Ctx G i (i + p.size) (fnsOf p i) par →
     Seg code i p.flat →
     (fnsOf p i).map (expected code G) = (treeReport p).map some
   | .nil, _, _, _, _, _, _, _ => rfl
   | .leaf _ rest, i, h, G, par, N, C, hseg => by
-    simp only [Prog.wf, Bool.and_eq_true] at h
-    have hb := fnsOf_bounds rest (i + 1) h.2
+    simp only [Prog.wfCore, Bool.and_eq_true] at h
+    have hb := fnsOf_bounds_core rest (i + 1) h.2
     rw [Prog.flat, Seg.cons_iff] at hseg
     have C' : Ctx G (i + 1) (i + 1 + rest.size) (fnsOf rest (i + 1)) par := by
       refine C.restrict (by omega) (by omega) (by simp only [Prog.size]; omega)
         (fun f hf => hf) (fun f hf => (hb f hf).1) (fun f hf => .inl hf)
-    exact expected_prog_ctx rest (i + 1) h.2 G par N C' hseg.2
+    exact expected_prog_ctx_core rest (i + 1) h.2 G par N C' hseg.2
   | .group _ _ items rest, i, h, G, par, N, C, hseg => by
-    simp only [Prog.wf, Bool.and_eq_true] at h
+    simp only [Prog.wfCore, Bool.and_eq_true] at h
     obtain ⟨⟨_, hwi⟩, hwr⟩ := h
     rw [Prog.flat, Seg.cons_iff, Seg.append_iff, Seg.cons_iff, Prog.size_eq] at hseg
     obtain ⟨_, hsi, _, hsr⟩ := hseg
     rw [show i + 1 + items.size + 1 = i + items.size + 2 by omega] at hsr
-    have hbi := fnsOf_bounds items (i + 1) hwi
-    have hbr := fnsOf_bounds rest (i + items.size + 2) hwr
+    have hbi := fnsOf_bounds_core items (i + 1) hwi
+    have hbr := fnsOf_bounds_core rest (i + items.size + 2) hwr
     simp only [fnsOf, Prog.size] at C
     have CI : Ctx G (i + 1) (i + 1 + items.size) (fnsOf items (i + 1)) par := by
       refine C.restrict (by omega) (by omega) (by omega)
@@ -219,19 +219,19 @@ theorem expected_prog_ctx {code : List Tok} : ∀ (p : Prog Tok) (i : Nat), p.wf
       · have := hbi f hf; exact .inr (.inl (by omega))
       · exact .inl hf
     simp only [fnsOf, treeReport, List.map_append,
-      expected_prog_ctx items (i + 1) hwi G par N CI hsi,
-      expected_prog_ctx rest (i + items.size + 2) hwr G par N CR hsr]
+      expected_prog_ctx_core items (i + 1) hwi G par N CI hsi,
+      expected_prog_ctx_core rest (i + items.size + 2) hwr G par N CR hsr]
   | .fn hdr k gap op cl body rest, i, h, G, par, N, C, hseg => by
-    simp only [Prog.wf, Bool.and_eq_true, decide_eq_true_eq] at h
-    obtain ⟨⟨⟨⟨⟨⟨⟨⟨⟨⟨hsl, hnf⟩, hwh⟩, hk⟩, hnm⟩, hgap⟩, hop⟩, hcl⟩, hwb⟩, hadj⟩, hwr⟩ := h
+    simp only [Prog.wfCore, Bool.and_eq_true, decide_eq_true_eq] at h
+    obtain ⟨⟨⟨⟨⟨⟨⟨⟨⟨hsl, hnf⟩, hwh⟩, hk⟩, hnm⟩, hgap⟩, hop⟩, hcl⟩, hwb⟩, hwr⟩ := h
     rw [Prog.flat, Seg.append_iff, Seg.append_iff, Seg.cons_iff, Seg.append_iff, Seg.cons_iff,
       Prog.size_eq, Prog.size_eq] at hseg
     obtain ⟨hsh, hsg, ho, hsb, hc, hsr⟩ := hseg
     rw [show i + hdr.size + gap.length + 1 + body.size + 1
       = i + hdr.size + gap.length + body.size + 2 by omega] at hsr
     have hpos := Prog.size_pos_of_startsWithLeaf hsl
-    have hbb := fnsOf_bounds body (i + hdr.size + gap.length + 1) hwb
-    have hbr := fnsOf_bounds rest (i + hdr.size + gap.length + body.size + 2) hwr
+    have hbb := fnsOf_bounds_core body (i + hdr.size + gap.length + 1) hwb
+    have hbr := fnsOf_bounds_core rest (i + hdr.size + gap.length + body.size + 2) hwr
     simp only [fnsOf, Prog.size] at C
     have CB := C.body rfl (by simp only; omega) (by simp only; omega) (by simp only; omega)
       (fun f hf => by have := hbb f hf; simp only; omega)
@@ -251,7 +251,7 @@ theorem expected_prog_ctx {code : List Tok} : ∀ (p : Prog Tok) (i : Nat), p.wf
         · have := hbb f hf; exact .inr (.inl (by omega))
         · exact .inl hf
     simp only [fnsOf, treeReport, List.map_cons, List.map_append,
-      expected_prog_ctx body _ hwb G _ N CB hsb, expected_prog_ctx rest _ hwr G par N CR hsr]
+      expected_prog_ctx_core body _ hwb G _ N CB hsb, expected_prog_ctx_core rest _ hwr G par N CR hsr]
     congr 1
     -- the function node itself
     unfold expected
@@ -310,7 +310,7 @@ theorem expected_prog_ctx {code : List Tok} : ∀ (p : Prog Tok) (i : Nat), p.wf
       hS i _ (.inl (by omega)), hS (i + hdr.size) _ (.inl (by omega)),
       hS (i + hdr.size + gap.length) _ (.inl (by omega)),
       hS (i + hdr.size + gap.length + 1 + body.size) _ (.inr (by omega)),
-      ← own_lines body _ hwb hsb l]
+      ← own_lines_core body _ hwb hsb l]
     have e1 := OwnL.seg hsh l
     have e2 := OwnL.seg hsg l
     have e3 := OwnL.seg (seg_singleton ho) l
@@ -324,31 +324,31 @@ theorem expected_prog_ctx {code : List Tok} : ∀ (p : Prog Tok) (i : Nat), p.wf
       List.mem_cons, List.not_mem_nil, or_false]
 
 /-- **the expected report of a whole file (nested functions)** -/
-theorem expected_prog {p : Prog Tok} (h : p.wf = true) (N : Nested p.fns) :
+theorem expected_prog_core {p : Prog Tok} (h : p.wfCore = true) (N : Nested p.fns) :
     p.fns.map (expected p.flat p.fns) = (treeReport p).map some :=
-  expected_prog_ctx p 0 h p.fns none N (Ctx.top _ _) (Seg.self _)
+  expected_prog_ctx_core p 0 h p.fns none N (Ctx.top _ _) (Seg.self _)
 
 /-! ## languages without nested functions -/
 
-theorem expectedFlat_prog_aux {code : List Tok} : ∀ (p : Prog Tok) (i : Nat), p.wf = true →
+theorem expectedFlat_prog_aux_core {code : List Tok} : ∀ (p : Prog Tok) (i : Nat), p.wfCore = true →
     Seg code i p.flat → (topFnsOf p i).map (expectedFlat code) = (treeReportFlat p).map some
   | .nil, _, _, _ => rfl
   | .leaf _ rest, i, h, hseg => by
-    simp only [Prog.wf, Bool.and_eq_true] at h
+    simp only [Prog.wfCore, Bool.and_eq_true] at h
     rw [Prog.flat, Seg.cons_iff] at hseg
-    exact expectedFlat_prog_aux rest (i + 1) h.2 hseg.2
+    exact expectedFlat_prog_aux_core rest (i + 1) h.2 hseg.2
   | .group _ _ items rest, i, h, hseg => by
-    simp only [Prog.wf, Bool.and_eq_true] at h
+    simp only [Prog.wfCore, Bool.and_eq_true] at h
     obtain ⟨⟨_, hwi⟩, hwr⟩ := h
     rw [Prog.flat, Seg.cons_iff, Seg.append_iff, Seg.cons_iff, Prog.size_eq] at hseg
     obtain ⟨_, hsi, _, hsr⟩ := hseg
     rw [show i + 1 + items.size + 1 = i + items.size + 2 by omega] at hsr
     simp only [topFnsOf, treeReportFlat, List.map_append,
-      expectedFlat_prog_aux items (i + 1) hwi hsi,
-      expectedFlat_prog_aux rest (i + items.size + 2) hwr hsr]
+      expectedFlat_prog_aux_core items (i + 1) hwi hsi,
+      expectedFlat_prog_aux_core rest (i + items.size + 2) hwr hsr]
   | .fn hdr k gap op cl body rest, i, h, hseg => by
-    simp only [Prog.wf, Bool.and_eq_true, decide_eq_true_eq] at h
-    obtain ⟨⟨⟨⟨⟨⟨⟨⟨⟨⟨hsl, hnf⟩, hwh⟩, hk⟩, hnm⟩, hgap⟩, hop⟩, hcl⟩, hwb⟩, hadj⟩, hwr⟩ := h
+    simp only [Prog.wfCore, Bool.and_eq_true, decide_eq_true_eq] at h
+    obtain ⟨⟨⟨⟨⟨⟨⟨⟨⟨hsl, hnf⟩, hwh⟩, hk⟩, hnm⟩, hgap⟩, hop⟩, hcl⟩, hwb⟩, hwr⟩ := h
     have hall : (Prog.fn hdr k gap op cl body rest).flat = allToks hdr gap op cl body ++ rest.flat := by
       simp [Prog.flat, allToks]
     have hlen : (allToks hdr gap op cl body).length = hdr.size + gap.length + body.size + 2 := by
@@ -361,7 +361,7 @@ theorem expectedFlat_prog_aux {code : List Tok} : ∀ (p : Prog Tok) (i : Nat), 
     rw [show i + hdr.size + gap.length + 1 + body.size + 1
       = i + hdr.size + gap.length + body.size + 2 by omega] at hsr
     have hpos := Prog.size_pos_of_startsWithLeaf hsl
-    simp only [topFnsOf, treeReportFlat, List.map_cons, expectedFlat_prog_aux rest _ hwr hsr]
+    simp only [topFnsOf, treeReportFlat, List.map_cons, expectedFlat_prog_aux_core rest _ hwr hsr]
     congr 1
     unfold expectedFlat
     rw [expectedWith_node (first := hdr.flat.headD default) (last := cl) (by simp only; omega)
@@ -380,9 +380,35 @@ theorem expectedFlat_prog_aux {code : List Tok} : ∀ (p : Prog Tok) (i : Nat), 
       exact ⟨j, t, a, by omega, c, d⟩
 
 /-- **the expected report of a whole file (no nested functions)** -/
-theorem expectedFlat_prog {p : Prog Tok} (h : p.wf = true) (N : Nested p.fns) :
+theorem expectedFlat_prog_core {p : Prog Tok} (h : p.wfCore = true) (N : Nested p.fns) :
     (topLevel p.fns).map (expectedFlat p.flat) = (treeReportFlat p).map some := by
-  rw [topLevel_prog h N]
-  exact expectedFlat_prog_aux p 0 h (Seg.self _)
+  rw [topLevel_prog_core h N]
+  exact expectedFlat_prog_aux_core p 0 h (Seg.self _)
+
+/-! ## the same for `wf` forests (corollaries; `noAdj` is not needed for the expected report) -/
+
+theorem own_lines {code : List Tok} (b : Prog Tok) (k : Nat) (h : b.wf = true)
+    (hseg : Seg code k b.flat) (l : Nat) :
+    (l ∈ b.own.map (·.line) ↔ OwnL code (fnsOf b k) k (k + b.size) l) :=
+  own_lines_core b k ((Prog.wf_iff b).mp h).1 hseg l
+
+theorem expected_prog_ctx {code : List Tok} (p : Prog Tok) (i : Nat) (h : p.wf = true)
+    (G : List Fn) (par : Option Fn) (N : Nested G) (C : Ctx G i (i + p.size) (fnsOf p i) par)
+    (hseg : Seg code i p.flat) :
+    (fnsOf p i).map (expected code G) = (treeReport p).map some :=
+  expected_prog_ctx_core p i ((Prog.wf_iff p).mp h).1 G par N C hseg
+
+theorem expected_prog {p : Prog Tok} (h : p.wf = true) (N : Nested p.fns) :
+    p.fns.map (expected p.flat p.fns) = (treeReport p).map some :=
+  expected_prog_core ((Prog.wf_iff p).mp h).1 N
+
+theorem expectedFlat_prog_aux {code : List Tok} (p : Prog Tok) (i : Nat) (h : p.wf = true)
+    (hseg : Seg code i p.flat) :
+    (topFnsOf p i).map (expectedFlat code) = (treeReportFlat p).map some :=
+  expectedFlat_prog_aux_core p i ((Prog.wf_iff p).mp h).1 hseg
+
+theorem expectedFlat_prog {p : Prog Tok} (h : p.wf = true) (N : Nested p.fns) :
+    (topLevel p.fns).map (expectedFlat p.flat) = (treeReportFlat p).map some :=
+  expectedFlat_prog_core ((Prog.wf_iff p).mp h).1 N
 
 end CL
